@@ -35,6 +35,9 @@ pub struct Compiler {
     try_depth: usize,
     /// Number of block scopes (PushScope without PopScope) open at the current position
     scope_depth: usize,
+    /// Enums declared so far in each open scope of this function (outermost first), with
+    /// their member names: a repeated declaration in the same scope extends the enum
+    enum_scopes: Vec<FxHashMap<JsString, Vec<JsString>>>,
 
     /// Set of variables that have been hoisted in the current scope
     /// Used to determine if we should emit DeclareVarHoisted or SetVar
@@ -116,6 +119,7 @@ impl Compiler {
             labels: FxHashMap::default(),
             try_depth: 0,
             scope_depth: 0,
+            enum_scopes: vec![FxHashMap::default()],
             hoisted_vars: FxHashSet::default(),
             loop_var_redirects: FxHashMap::default(),
             class_context_stack: Vec::new(),
@@ -294,6 +298,7 @@ impl Compiler {
         }
         self.builder.emit(Op::PushScope);
         self.scope_depth += 1;
+        self.enum_scopes.push(FxHashMap::default());
         Ok(())
     }
 
@@ -301,6 +306,9 @@ impl Compiler {
     fn pop_scope(&mut self) {
         self.builder.emit(Op::PopScope);
         self.scope_depth = self.scope_depth.saturating_sub(1);
+        if self.enum_scopes.len() > 1 {
+            self.enum_scopes.pop();
+        }
     }
 
     /// Set the continue target for the current loop and patch any pending continue jumps
